@@ -19,6 +19,7 @@ def helperOnly : Code → Bool → Bool
   | .defer f _ k, d => helperOnly f false && helperOnly k d
   | .deferVar f _ k, d => helperOnly f false && helperOnly k d
   | .deferBin _ _ k, d => helperOnly k d
+  | .deferBinSpread _ _ k, d => helperOnly k d
   | .deferDel _ k, d => helperOnly k d
   | .deferPanic _ k, d => helperOnly k d
   | .probe _ k, d => helperOnly k d
@@ -106,6 +107,10 @@ theorem body_helper (cf : CallFn) (hcf : HelperInv cf) :
     intro d a anc self w hh ha hs hw he
     simp only [execBodyY]
     exact ih d a anc _ w (by simpa [helperOnly] using hh) ha hs hw (helper_push _ _ _ rfl he)
+  | deferBinSpread s ns k ih =>
+    intro d a anc self w hh ha hs hw he
+    simp only [execBodyY]
+    exact ih d a anc _ w (by simpa [helperOnly] using hh) ha hs hw (helper_push _ _ _ rfl he)
   | deferPanic v k ih =>
     intro d a anc self w hh ha hs hw he
     simp only [execBodyY, facts_panicDeferrable, if_true]
@@ -177,6 +182,7 @@ theorem entries_helper (cf : CallFn) (hcf : HelperInv cf) :
     cases callee with
     | bin s => simp only [runEntriesY]; exact ih self _ hes (noSome_emit w _ hw rfl)
     | del t => simp only [runEntriesY]; exact ih self _ hes hw
+    | bins s ns sp => simp only [runEntriesY]; exact ih self _ hes (noSome_emit w _ hw rfl)
     | pan v => simp only [runEntriesY, facts_deferredProtected, if_true]; exact ih _ _ hes hw
     | src c =>
       simp only [runEntriesY, facts_deferredProtected, if_true]
